@@ -328,11 +328,14 @@ public:
         if (!available()) {
 
             if (fixedsize) return false;
+            FIX8_VERIF_POINT(31, 0);
 
             // try to get a new buffer
             INTERNAL_BUFFER_T * t = pool.next_w(size);
             assert(t); //if (!t) return false; // EWOULDBLOCK
+            FIX8_VERIF_POINT(32, 0);
             buf_w = t;
+            FIX8_VERIF_POINT(33, 0);
             in_use_buffers++;
 #if defined(UBUFFER_STATS)
             ++numBuffers;
@@ -390,12 +393,16 @@ public:
         assert(data != NULL);
 
         if (buf_r->empty()) { // current buffer is empty
+            FIX8_VERIF_POINT(41, 0);
             if (buf_r == buf_w) return false;
+            FIX8_VERIF_POINT(42, 0);
             if (buf_r->empty()) { // we have to check again
                 INTERNAL_BUFFER_T * tmp = pool.next_r();
+                FIX8_VERIF_POINT(43, 0);
                 if (tmp) {
                     // there is another buffer, release the current one
                     pool.release(buf_r);
+                    FIX8_VERIF_POINT(44, 0);
                     in_use_buffers--;
                     buf_r = tmp;
 
